@@ -201,3 +201,14 @@ pub proof fn lemma_mp_target_nonzero(m: MultiPatternNfa, s: int, cc: CharClassID
 }
 #[verifier::external_body]
 pub fn verif_patterns_text(p: &Vec<Pattern>) -> String { unimplemented!() }
+
+/// find_nfa(t) can only return the owner of t
+pub proof fn lemma_mp_owner_find(m: MultiPatternNfa, t: StateID, own: int)
+    requires mp_wf(m), owner(m, t.0 as int, own)
+    ensures forall|jj: int| 0 <= jj < mp_len(m) ==> (contains_id(#[trigger] m.nfas@[jj], t) <==> jj == own)
+{
+    assert forall|jj: int| 0 <= jj < mp_len(m) implies (contains_id(#[trigger] m.nfas@[jj], t) <==> jj == own) by {
+        lemma_contains_id(m.nfas@[jj], t);
+        if owner(m, t.0 as int, jj) { lemma_owner_unique(m, t.0 as int, jj, own); }
+    }
+}
